@@ -55,6 +55,10 @@ def gen_inputs(ctx):
             for kind in KINDS:
                 out.append(("Addr", {"kind": kind, "net": net, "K": K, "via": "wallet", "compressed": True},
                             ("wallet", kind, net, pt[1] & 1, kc)))
+            if kc in ("small/extreme", "h160c-lz") or rng.random() < 0.15:
+                for kind in KINDS:
+                    out.append(("Addr", {"kind": kind, "net": net, "K": K, "via": "wallet", "compressed": True,
+                                         "node_net": "test" if net == "main" else "main"}, ("wallet-foreign-node", kind, net)))
             for kind in ("p2pkh", "p2wpkh"):
                 for comp in (True, False):
                     if kind == "p2wpkh" and not comp and q:
